@@ -1,8 +1,8 @@
+//@include ../_shared/nuts_post.rs
 // =====================================================================================
 // Specification vocabulary for the NUTS tree (C01, C03, C05.2), written from the property text
 // =====================================================================================
 
-pub open spec fn pow2(n: nat) -> int decreases n { if n == 0 { 1 } else { 2 * pow2((n - 1) as nat) } }
 
 pub proof fn lemma_pow2_pos(n: nat) ensures pow2(n) >= 1 decreases n { if n > 0 { lemma_pow2_pos((n - 1) as nat); } }
 pub proof fn lemma_pow2_mono(a: nat, b: nat) requires a <= b ensures pow2(a) <= pow2(b) decreases b {
@@ -12,11 +12,6 @@ pub proof fn lemma_pow2_bound(n: nat) requires n <= 60 ensures pow2(n) <= 0x1000
     if n < 60 { lemma_pow2_bound(n + 1); } else { assert(pow2(60) == 0x1000_0000_0000_0000) by(compute); }
 }
 
-/// [C01.6] one fair coin per direction, mapped bijectively
-pub open spec fn dir_sample_post(l0: Seq<RngEv>, l1: Seq<RngEv>, r: Direction) -> bool {
-    // exactly one coin is consumed and the direction is a bijective image of it
-    l1 == l0.push(RngEv::Coin(r is Forward))
-}
 
 /// multinomial weight of a trajectory state: exp(-(E - E0))
 pub open spec fn w_of(v: StateView) -> real { exp_r(-(v.energy - v.e0)) }
@@ -47,8 +42,6 @@ pub proof fn lemma_wsum_pos(traj: Map<int, StateView>, lo: int, hi: int)
     if lo < hi { lemma_wsum_pos(traj, lo, hi - 1); } else { assert(wsum(traj, lo, hi - 1) == 0real); }
 }
 
-/// `traj` holds a state for index i (named so that quantifiers have a stable trigger)
-pub open spec fn has(t: Map<int, StateView>, i: int) -> bool { t.dom().contains(i) }
 
 pub open spec fn tl<M: Math, H: Hamiltonian<M>, C: Collector<M, H::Point>>(t: NutsTree<M, H, C>) -> int { t.left.view().idx }
 pub open spec fn tr<M: Math, H: Hamiltonian<M>, C: Collector<M, H::Point>>(t: NutsTree<M, H, C>) -> int { t.right.view().idx }
@@ -175,10 +168,12 @@ pub proof fn lemma_wf_frame<M: Math, H: Hamiltonian<M>, C: Collector<M, H::Point
 /// outcome of one doubling (C01.4, C03.2, C03.4, C05.2)
 pub open spec fn extend_post<M: Math, H: Hamiltonian<M>, C: Collector<M, H::Point>>(
     s: TreeView, r: ExtendResult<M, H, C>, h: H, dir: Direction, check_turning: bool,
-    t0: Map<int, StateView>, t1: Map<int, StateView>, n0: nat, n1: nat) -> bool
+    t0: Map<int, StateView>, t1: Map<int, StateView>, n0: nat, n1: nat, dv0: nat, dv1: nat) -> bool
 {
     let d = s.depth as nat;
-    match r {
+    // [C05.2] a doubling ends as `Diverging` exactly when one of its integration steps diverged
+    &&& dv1 == dv0 + (if r is Diverging { 1nat } else { 0nat })
+    &&& match r {
         // success: exactly 2^d new leapfrogs, invariant holds, and the U-turn criterion is NOT met
         ExtendResult::Ok(t) => grown(s, t, dir, t1) && n1 == n0 + pow2(d)
             && !(check_turning && turned(h, t1, tl(t), mid_of(s, dir), tr(t), s.depth)),
@@ -186,9 +181,9 @@ pub open spec fn extend_post<M: Math, H: Hamiltonian<M>, C: Collector<M, H::Poin
         ExtendResult::Turning(t) =>
             (grown(s, t, dir, t1) && n1 == n0 + pow2(d) && check_turning && turned(h, t1, tl(t), mid_of(s, dir), tr(t), s.depth))
             // ... or a sub-tree of the new half did: the new half is rejected, the old tree is returned untouched
-            || (tview(t) == s && n0 + 1 <= n1 <= n0 + pow2(d) && d > 0),
+            || (tview(t) == s && tree_wf(t, t1) && n0 + 1 <= n1 <= n0 + pow2(d) && d > 0),
         // divergence: the old tree is returned untouched
-        ExtendResult::Diverging(t, _) => tview(t) == s && n0 + 1 <= n1 <= n0 + pow2(d),
+        ExtendResult::Diverging(t, _) => tview(t) == s && tree_wf(t, t1) && n0 + 1 <= n1 <= n0 + pow2(d),
         // (an unrecoverable error aborts the transition; the failing step itself is not counted)
         ExtendResult::Err(_) => n0 <= n1 <= n0 + pow2(d),
     }
@@ -217,26 +212,6 @@ pub proof fn lemma_coins_bern(l0: Seq<RngEv>, l1: Seq<RngEv>)
         lemma_coins_bern(l0, m);
         assert(l1[l1.len() - 1] is Bern);
     }
-}
-
-/// [C03.3] what a finished NUTS transition guarantees about the returned state and its statistics
-pub open spec fn draw_post(state: StateView, info: SampleInfo, init: StateView, traj: Map<int, StateView>,
-    steps: nat, dim: nat, opts: NutsOptions) -> bool
-{
-    let d = info.depth as nat;
-    // the draw is a state the integrator produced in this trajectory (or its start)
-    &&& has(traj, state.idx) && traj[state.idx] == state
-    &&& has(traj, 0) && traj[0] == init
-    // index 0 iff the chain did not move
-    &&& (state.idx == 0 ==> state == init)
-    &&& -(pow2(d) - 1) <= state.idx <= pow2(d) - 1
-    &&& (opts.target_integration_time is None ==> info.depth <= opts.maxdepth)
-    &&& info.depth <= 60
-    // step count of a depth-d trajectory
-    &&& pow2(d) - 1 <= steps <= 2 * pow2(d) - 1
-    &&& (dim == 0 ==> steps == 0 && state == init && info.depth == 0)
-    &&& (info.divergence_info is Some ==> !info.reached_maxdepth)
-    &&& (info.reached_maxdepth ==> steps == pow2(d) - 1)
 }
 
 pub proof fn lemma_exp_sub(a: real, b: real)
